@@ -483,6 +483,39 @@ func generate(a *Args, rng *Rng, run func(*c06Case), runSeq func([]*c06Case)) {
 			}
 		}
 
+		// ---- 7c. the full cross: a not-yet-valid / expired certificate at each chain position x tsa store listed or not
+		// x verifyTimestamp {unset, always, afterCertExpiry} x countersignature absent / present. Whatever branch
+		// the combination selects, a chain that is not valid at the selected clock must fail.
+		for _, n := range chainLens {
+			for k := 0; k < n; k++ {
+				for _, kind := range []string{"not yet valid", "expired"} {
+					for _, tsa := range []bool{false, true} {
+						for _, opt := range c06Opts {
+							for _, tok := range []bool{false, true} {
+								c := valid(rng, false, n)
+								c.Fam = "cross:" + kind
+								if tsa {
+									withTSA(rng, c, "a")
+								}
+								c.Opt = opt
+								if tok {
+									c.Tok = tokDesc{Kind: "ok", Msg: "sig", PKI: "a", GenH: -20, Acc: 1}
+								} else {
+									c.Tok.Kind = "none"
+								}
+								if kind == "expired" {
+									c.Win[k] = [2]int{-100, -Pick(rng, []int{2, 5, 30})} // -30: expired before the timestamp too
+								} else {
+									c.Win[k] = [2]int{Pick(rng, []int{2, 5, 30}), 100}
+								}
+								run(c)
+							}
+						}
+					}
+				}
+			}
+		}
+
 		// ---- 8. the odd tsa store at every position of the trustStores list, the scheme's own store at every position
 		for _, odd := range []string{"tsa:missing", "tsa:fail", "tsa:empty", "tsa:b", "tsa:a", "tsa:T.s_A-1"} {
 			for pos := 0; pos <= 2; pos++ {
